@@ -23,7 +23,9 @@ import (
 	"strconv"
 	"strings"
 	"sync"
+	"syscall"
 	"testing"
+	"time"
 
 	"pgregory.net/rapid"
 
@@ -264,5 +266,46 @@ func ReplayOne[C any](t *testing.T, s Spec[C]) {
 		t.Errorf("%s/%s replay: %v", s.ID, s.Name, err)
 	} else {
 		t.Logf("%s/%s replay: property holds on this case", s.ID, s.Name)
+	}
+}
+
+func cpuSeconds() float64 {
+	var ru syscall.Rusage
+	if err := syscall.Getrusage(syscall.RUSAGE_SELF, &ru); err != nil {
+		return 0
+	}
+	return float64(ru.Utime.Sec+ru.Stime.Sec) + float64(ru.Utime.Usec+ru.Stime.Usec)/1e6
+}
+
+// Bounded is the termination oracle: it runs f (normal cost: microseconds) in
+// its own goroutine and reports a violation only if the process has burnt more
+// than 20 s of CPU time on it; a stall without CPU consumption is
+// inconclusive and ends the process with status 2. Panics in f are returned
+// as errors.
+func Bounded(f func() error) error {
+	done := make(chan error, 1)
+	go func() { done <- Safe(f) }()
+	select {
+	case err := <-done:
+		return err
+	case <-time.After(2 * time.Second):
+	}
+	cpu0 := cpuSeconds()
+	start := time.Now()
+	tick := time.NewTicker(time.Second)
+	defer tick.Stop()
+	for {
+		select {
+		case err := <-done:
+			return err
+		case <-tick.C:
+			if used := cpuSeconds() - cpu0; used > 20 {
+				return fmt.Errorf("did not terminate: %.0f s of CPU consumed on a single input (normal cost: microseconds)", used)
+			}
+			if time.Since(start) > 5*time.Minute {
+				fmt.Fprintln(os.Stderr, "INCONCLUSIVE: a case stalled for 5 minutes without consuming CPU")
+				os.Exit(2)
+			}
+		}
 	}
 }
